@@ -74,11 +74,23 @@ inline std::string p_merge(int slot) {
     cJSON_Delete(p); cJSON_Delete(f); cJSON_Delete(t); return r;
 }
 
+inline std::string p_root_ops(int slot) {
+    // whole-document patch operations (the root is replaced / removed in place); one document is embedded in an array
+    cJSON* holder = cJSON_Parse(("[" + S(slot) + ",{\"r\":" + S(slot + 10) + "},\"tail" + S(slot) + "\"]").c_str()); cJSON* solo = cJSON_Parse(("{\"solo\":[" + S(slot) + "]}").c_str()); if (!holder || !solo) return "parse failed";
+    cJSON* rep = cJSON_Parse(("[{\"op\":\"replace\",\"path\":\"\",\"value\":{\"v\":\"s" + S(slot) + "\"}}]").c_str()); cJSON* rem = cJSON_Parse("[{\"op\":\"remove\",\"path\":\"\"}]"); cJSON* add = cJSON_Parse(("[{\"op\":\"add\",\"path\":\"\",\"value\":[" + S(slot) + "]}]").c_str());
+    std::string r; int st = cJSONUtils_ApplyPatchesCaseSensitive(solo, rep); r += S(st) + take(cJSON_PrintUnformatted(solo));
+    st = cJSONUtils_ApplyPatchesCaseSensitive(solo, rem); r += "|" + S(st) + "type" + S(solo->type & 0xFF) + (solo->next || solo->prev || solo->child ? "LINKED" : "");
+    st = cJSONUtils_ApplyPatches(solo, add); r += "|" + S(st) + take(cJSON_PrintUnformatted(solo));
+    cJSON* mid = cJSON_GetArrayItem(holder, 1); st = cJSONUtils_ApplyPatchesCaseSensitive(mid, rem); r += "|" + S(st) + "size" + S(cJSON_GetArraySize(holder)) + (cJSON_GetArrayItem(holder, 2) && cJSON_IsString(cJSON_GetArrayItem(holder, 2)) ? "tail-ok" : "tail-lost");
+    mid->type = cJSON_NULL; r += "|" + take(cJSON_PrintUnformatted(holder));
+    cJSON_Delete(rep); cJSON_Delete(rem); cJSON_Delete(add); cJSON_Delete(solo); cJSON_Delete(holder); return r;
+}
+
 typedef std::string (*Prog)(int);
 struct Entry { const char* name; Prog fn; };
 inline const std::vector<Entry>& all() {
     static const std::vector<Entry> v = { { "parse+print", p_parse_print }, { "failing-parse", p_parse_fail }, { "construct+PrintBuffered", p_construct }, { "numbers", p_numbers }, { "PrintPreallocated", p_prealloc },
-                                          { "duplicate+compare", p_dup_compare }, { "edits", p_edits }, { "minify", p_minify }, { "patch-generate+apply", p_patch }, { "merge-patch+sort", p_merge } };
+                                          { "duplicate+compare", p_dup_compare }, { "edits", p_edits }, { "minify", p_minify }, { "patch-generate+apply", p_patch }, { "merge-patch+sort", p_merge }, { "whole-document-patches", p_root_ops } };
     return v;
 }
 } // namespace progs
